@@ -28,7 +28,14 @@ def run(ctx):
     f = ctx.anchor(N + "p2p::P2p::get_verified_headers_range")
     if f:
         require_guard(ctx, f, Has("call:*ExtendedHeader::validate", "from", name="?from.validate()"), "C27.validate-from")
-        require_guard(ctx, f, Has("call:*ExtendedHeader::verify_adjacent_range", "from", "call:*HeaderSession::run", name="?from.verify_adjacent_range(session headers)"), "C27.verify-range")
+        from engine.rules import exit_sites, holds
+        acc = [x["block"] for x in exit_sites(f) if x["kind"] in ("accept", "may")]
+        # the zero-amount answer (an empty list, before any session exists) needs no verification
+        zero = [b for b in acc if holds(ctx, f, Cmp(["amount"], ["lit:0"], pass_op="Eq", name="amount == 0"), targets=[b])[0]]
+        rest = [b for b in acc if b not in zero]
+        ctx.check(len(rest) >= 1, "C27.exits", f.path, "accepting exits: %d after a session, %d for a zero amount" % (len(rest), len(zero)), key="C27.exits")
+        if rest:
+            require_guard(ctx, f, Has("call:*ExtendedHeader::verify_adjacent_range", "from", "call:*HeaderSession::run", name="?from.verify_adjacent_range(session headers)"), "C27.verify-range", targets=rest)
         ses = f.call_sites([N + "p2p::header_session::HeaderSession::new"])
         ctx.check(len(ses) == 1, "C27.session-site", f.path, "one header session per call", key="C27.session-site")
         if ses:
